@@ -11,14 +11,27 @@ open XmppModel XmppModel.Jid
 def pOracle (s : String) : Option (Option Bytes) :=
   if s == "!" then some none else (hexDecode s).map some
 
-/-- the `Norm` that answers exactly the queries the harness answered -/
-def mkNorm (l : Bytes) (nl : Option Bytes) (r : Bytes) (nr : Option Bytes)
+/-- the oracle value of the localpart: `!`, `<hex>` (the enforced form, a fixed point of the
+profile) or `<hex>~<second>` (the enforced form and what a second pass makes of it) -/
+def pOracleL (s : String) : Option (Option Bytes × Option Bytes) :=
+  match s.splitOn "~" with
+  | [a] => do let x ← pOracle a; pure (x, x)
+  | [a, b] => do pure (← pOracle a, ← pOracle b)
+  | _ => none
+
+/-- the library `Norm` that answers exactly the queries the harness answered -/
+def mkLib (l : Bytes) (nl : Option Bytes × Option Bytes) (r : Bytes) (nr : Option Bytes)
     (d : Bytes) (ip6 ip4 : Bool) (idna idna2 : Option Bytes) : Norm where
-  nL := fun x => if x = l then nl else none
+  nL := fun x => if x = l then nl.1 else if some x = nl.1 then nl.2 else none
   nR := fun x => if x = r then nr else none
   idna := fun x => if x = trimDot d then idna else if some x = idna then idna2 else none
   ip6 := fun x => x = d ∧ ip6
   ip4 := fun x => x = d ∧ ip4
+
+/-- … as the code applies it (`Norm.code`: fixed-point test on the enforced localpart) -/
+def mkNorm (l : Bytes) (nl : Option Bytes × Option Bytes) (r : Bytes) (nr : Option Bytes)
+    (d : Bytes) (ip6 ip4 : Bool) (idna idna2 : Option Bytes) : Norm :=
+  (mkLib l nl r nr d ip6 ip4 idna idna2).code
 
 def showJid (j : Jid) : String := s!"{hexEncode j.data} {j.ll} {j.dl}"
 
@@ -32,10 +45,10 @@ def pJid (data ll dl : String) : Option Jid := do
 
 /-! ### operation sequences (`seq`): the pure functions applied in order; a report per slot -/
 
-def pOrc6 (f : List String) : Option (Option Bytes × Option Bytes × Bool × Bool × Option Bytes × Option Bytes) :=
+def pOrc6 (f : List String) : Option ((Option Bytes × Option Bytes) × Option Bytes × Bool × Bool × Option Bytes × Option Bytes) :=
   match f with
   | [nl, nr, i6, i4, idna, idna2] => do
-    pure (← pOracle nl, ← pOracle nr, ← parseBool i6, ← parseBool i4, ← pOracle idna, ← pOracle idna2)
+    pure (← pOracleL nl, ← pOracle nr, ← parseBool i6, ← parseBool i4, ← pOracle idna, ← pOracle idna2)
   | _ => none
 
 def slot (vals : List (Option Jid)) (i : String) : Option Jid := do
@@ -67,19 +80,19 @@ def seqOp (vals : List (Option Jid)) (op : String) : Option (Option Jid) :=
   | ["C", i] => do let j ← slot vals i; pure (some j)
   | ["L", i, l, nl] => do
     let j ← slot vals i; let l ← hexDecode l
-    pure (toSlot (withLocal (mkNorm l (← pOracle nl) [] none [] false false none none) j l))
+    pure (toSlot (withLocal (mkNorm l (← pOracleL nl) [] none [] false false none none) j l))
   | ["M", i, d, i6, i4, idna, idna2] => do
     let j ← slot vals i; let d ← hexDecode d
-    pure (toSlot (withDomain (mkNorm [] none [] none d (← parseBool i6) (← parseBool i4) (← pOracle idna) (← pOracle idna2)) j d))
+    pure (toSlot (withDomain (mkNorm [] (none, none) [] none d (← parseBool i6) (← parseBool i4) (← pOracle idna) (← pOracle idna2)) j d))
   | ["R", i, r, nr] => do
     let j ← slot vals i; let r ← hexDecode r
-    pure (toSlot (withResource (mkNorm [] none r (← pOracle nr) [] false false none none) j r))
+    pure (toSlot (withResource (mkNorm [] (none, none) r (← pOracle nr) [] false false none none) j r))
   | "A" :: i :: v :: orc => do
     let j ← slot vals i; let v ← hexDecode v
     let (nl, nr, i6, i4, idna, idna2) ← pOrc6 orc
     let N := match split true v with
       | .ok (l, d, r) => mkNorm l nl r nr d i6 i4 idna idna2
-      | .error _ => mkNorm [] none [] none [] false false none none
+      | .error _ => mkNorm [] (none, none) [] none [] false false none none
     pure (some (unmarshalAttr N j v).1)
   | _ => none
 
@@ -102,11 +115,11 @@ def handle (args : List String) : Option String :=
     | .error _ => pure "err"
   | ["new", l, d, r, nl, nr, ip6, ip4, idna, idna2] => do
     let l ← hexDecode l; let d ← hexDecode d; let r ← hexDecode r
-    let N := mkNorm l (← pOracle nl) r (← pOracle nr) d (← parseBool ip6) (← parseBool ip4) (← pOracle idna) (← pOracle idna2)
+    let N := mkNorm l (← pOracleL nl) r (← pOracle nr) d (← parseBool ip6) (← parseBool ip4) (← pOracle idna) (← pOracle idna2)
     pure (showRes (new N l d r))
   | ["parse", s, nl, nr, ip6, ip4, idna, idna2] => do
     let s ← hexDecode s
-    let nl ← pOracle nl; let nr ← pOracle nr; let i6 ← parseBool ip6; let i4 ← parseBool ip4
+    let nl ← pOracleL nl; let nr ← pOracle nr; let i6 ← parseBool ip6; let i4 ← parseBool ip4
     let idna ← pOracle idna; let idna2 ← pOracle idna2
     match split true s with
     | .ok (l, d, r) => pure (showRes (parse (mkNorm l nl r nr d i6 i4 idna idna2) s))
@@ -126,13 +139,13 @@ def handle (args : List String) : Option String :=
     pure (showBool (a.equal b))
   | ["withl", data, ll, dl, l, nl] => do
     let j ← pJid data ll dl; let l ← hexDecode l
-    pure (showRes (withLocal (mkNorm l (← pOracle nl) [] none [] false false none none) j l))
+    pure (showRes (withLocal (mkNorm l (← pOracleL nl) [] none [] false false none none) j l))
   | ["withd", data, ll, dl, d, ip6, ip4, idna, idna2] => do
     let j ← pJid data ll dl; let d ← hexDecode d
-    pure (showRes (withDomain (mkNorm [] none [] none d (← parseBool ip6) (← parseBool ip4) (← pOracle idna) (← pOracle idna2)) j d))
+    pure (showRes (withDomain (mkNorm [] (none, none) [] none d (← parseBool ip6) (← parseBool ip4) (← pOracle idna) (← pOracle idna2)) j d))
   | ["withr", data, ll, dl, r, nr] => do
     let j ← pJid data ll dl; let r ← hexDecode r
-    pure (showRes (withResource (mkNorm [] none r (← pOracle nr) [] false false none none) j r))
+    pure (showRes (withResource (mkNorm [] (none, none) r (← pOracle nr) [] false false none none) j r))
   | ["seq", ops] => do
     let vals ← runSeq [] (splitList ops ';')
     pure (joinList (vals.map showSlot))
@@ -149,11 +162,11 @@ def handle (args : List String) : Option String :=
   | ["unelemtoks", toks, nl, nr, ip6, ip4, idna, idna2] => do
     let inner ← Xml.decToks toks
     let v := charDataOf 0 inner
-    let nl ← pOracle nl; let nr ← pOracle nr; let i6 ← parseBool ip6; let i4 ← parseBool ip4
+    let nl ← pOracleL nl; let nr ← pOracle nr; let i6 ← parseBool ip6; let i4 ← parseBool ip4
     let idna ← pOracle idna; let idna2 ← pOracle idna2
     let N := match split true v with
       | .ok (l, d, r) => mkNorm l nl r nr d i6 i4 idna idna2
-      | .error _ => mkNorm [] none [] none [] false false none none
+      | .error _ => mkNorm [] (none, none) [] none [] false false none none
     let (j, ok) := unmarshalElemToks N ⟨[0x7a], 0, 1⟩ inner
     pure s!"{showJid j} {showBool ok}"
   | ["utf8", s] => do
@@ -161,20 +174,20 @@ def handle (args : List String) : Option String :=
     pure (showBool (validUtf8 s))
   | ["unattr", v, nl, nr, ip6, ip4, idna, idna2] => do
     let v ← hexDecode v
-    let nl ← pOracle nl; let nr ← pOracle nr; let i6 ← parseBool ip6; let i4 ← parseBool ip4
+    let nl ← pOracleL nl; let nr ← pOracle nr; let i6 ← parseBool ip6; let i4 ← parseBool ip4
     let idna ← pOracle idna; let idna2 ← pOracle idna2
     let N := match split true v with
       | .ok (l, d, r) => mkNorm l nl r nr d i6 i4 idna idna2
-      | .error _ => mkNorm [] none [] none [] false false none none
+      | .error _ => mkNorm [] (none, none) [] none [] false false none none
     let (j, ok) := unmarshalAttr N ⟨[0x7a], 0, 1⟩ v
     pure s!"{showJid j} {showBool ok}"
   | ["unelem", v, nl, nr, ip6, ip4, idna, idna2] => do
     let v ← hexDecode v
-    let nl ← pOracle nl; let nr ← pOracle nr; let i6 ← parseBool ip6; let i4 ← parseBool ip4
+    let nl ← pOracleL nl; let nr ← pOracle nr; let i6 ← parseBool ip6; let i4 ← parseBool ip4
     let idna ← pOracle idna; let idna2 ← pOracle idna2
     let N := match split true v with
       | .ok (l, d, r) => mkNorm l nl r nr d i6 i4 idna idna2
-      | .error _ => mkNorm [] none [] none [] false false none none
+      | .error _ => mkNorm [] (none, none) [] none [] false false none none
     let (j, ok) := unmarshalElem N ⟨[0x7a], 0, 1⟩ v
     pure s!"{showJid j} {showBool ok}"
   | _ => none
